@@ -1,11 +1,12 @@
 """Per-property claim metadata (level, technique, notes) shared by the manifest generator and the checks."""
 CORR = ('Tie to the code, both ways, on every run: (1) differential correspondence (extracted model vs. crate, debug+release) over boundary-directed '
         'generators, with a sample re-evaluated inside the kernel; (2) regeneration from the source text: tables/constants (py/srcfacts.py) and the '
-        'control flow of 130 codec functions (py/rs2v translator) are re-derived from /repo and kernel-checked against the Model, and the linked '
-        'regenerated decoder is proved equal to the Model decoder on every input (hide/reveal: correspondence only). ')
+        'control flow of 149 functions (py/rs2v translator: decoders, encoders, SliceReader, VecWriter, AVP::hide, AVP::reveal) are re-derived from '
+        '/repo and kernel-checked against the Model; the linked regenerated decoder / encoder / reader / hide / reveal are proved equal to the Model on '
+        'every input and the property theorems are re-proved of them (G_C01..G_C06, G_C11..G_C13). ')
 TB = ('Trusted: Coq 8.16.1 kernel incl. vm_compute; extraction (ExtrOcamlBasic only) + ocamlopt + driver.ml; Rust harness, Python generators/differ; '
       'the translator py/rs2v and its representation tables; '
-      'modelled-not-verified: md5 crate, from_utf8, slice/Vec primitives, proc-macro expansions.')
+      'modelled-not-verified: md5 crate, from_utf8, slice/Vec primitives (their meaning is Model/VecOps.v), proc-macro expansions.')
 
 def P(level, text, ref, technique, note):
     return {'level': level, 'text': text, 'design_ref': ref, 'technique': technique, 'note': note + ' ' + TB}
